@@ -230,6 +230,62 @@ func (g *Graph) nnEdge(e *Edge, s nnSet) nnSet {
 	return out
 }
 
+// classifies: along e a tracked (known non-nil) error was recognised as one
+// specific class — compared equal to a non-nil operand, accepted by a predicate
+// call that is handed it (errors.Is, errors.As, IsNotFound, os.IsNotExist …), or
+// matched by a case of a `switch err { … }`.
+func (g *Graph) classifies(e *Edge, s nnSet) bool {
+	mentions := func(x ast.Node) bool {
+		found := false
+		ast.Inspect(x, func(y ast.Node) bool {
+			if id, ok := y.(*ast.Ident); ok && s[ObjOf(g.Info, id)] {
+				found = true
+			}
+			return !found
+		})
+		return found
+	}
+	if e.Cond == nil {
+		return false
+	}
+	if e.Tag != nil {
+		return e.Branch && mentions(e.Tag) && !IsNilIdent(g.Info, ast.Unparen(e.Cond))
+	}
+	for _, a := range e.Atoms() {
+		switch x := ast.Unparen(a.X).(type) {
+		case *ast.BinaryExpr:
+			if x.Op != token.EQL && x.Op != token.NEQ {
+				continue
+			}
+			l, r := ast.Unparen(x.X), ast.Unparen(x.Y)
+			if IsNilIdent(g.Info, l) || IsNilIdent(g.Info, r) {
+				continue
+			}
+			li, lok := l.(*ast.Ident)
+			ri, rok := r.(*ast.Ident)
+			if !((lok && s[ObjOf(g.Info, li)]) || (rok && s[ObjOf(g.Info, ri)])) {
+				continue
+			}
+			if (x.Op == token.EQL) == a.Val {
+				return true
+			}
+		case *ast.CallExpr:
+			if !a.Val {
+				continue
+			}
+			if t := g.Info.TypeOf(x); t == nil || !types.Identical(t.Underlying(), types.Typ[types.Bool]) {
+				continue
+			}
+			for _, arg := range x.Args {
+				if mentions(arg) {
+					return true
+				}
+			}
+		}
+	}
+	return false
+}
+
 // exitFails: the exit x reports failure given the tracked set.
 func (g *Graph) exitFails(x *Node, s nnSet) bool {
 	if x.Kind == KPanic {
@@ -321,6 +377,12 @@ func FailuresSwallowed(f *Func, d Matcher) (int, []Swallow) {
 			}
 			s2 := g.nnStep(n, s)
 			for _, e := range n.Succ {
+				if g.classifies(e, s2) {
+					// the branch on which the failure was recognised as one specific
+					// class (err == ErrX, errors.Is(err, X), IsNotFound(err), case ErrX):
+					// what happens there is a decision about that class, not a swallow
+					continue
+				}
 				if s3 := g.nnEdge(e, s2); s3 != nil {
 					visit(e.To, s3)
 				}
